@@ -204,15 +204,11 @@ func (c *xprogCase) bodySrc(b *strings.Builder, f int, indent string) {
 		fmt.Fprintf(b, "%suse(%s)\n", indent, strings.Join(use, ", "))
 	}
 	for _, s := range fn.Body {
-		in := indent
-		if s.If {
-			fmt.Fprintf(b, "%sif cond {\n", indent)
-			in = indent + "\t"
-		}
 		var rhs []string
 		for _, e := range s.Rhs {
-			rhs = append(rhs, c.exprSrc(e, in))
+			rhs = append(rhs, c.exprSrc(e, indent+"\t\t"))
 		}
+		var text string
 		switch s.K {
 		case "assign", "addassign":
 			var lhs []string
@@ -227,14 +223,17 @@ func (c *xprogCase) bodySrc(b *strings.Builder, f int, indent string) {
 			if s.K == "addassign" {
 				op = "+="
 			}
-			fmt.Fprintf(b, "%s%s %s %s\n", in, strings.Join(lhs, ", "), op, strings.Join(rhs, ", "))
+			text = fmt.Sprintf("%s %s %s", strings.Join(lhs, ", "), op, strings.Join(rhs, ", "))
 		case "ret":
-			fmt.Fprintf(b, "%sreturn %s\n", in, strings.Join(rhs, ", "))
+			text = "return " + strings.Join(rhs, ", ")
 		case "bare":
-			fmt.Fprintf(b, "%sreturn\n", in)
+			text = "return"
 		}
 		if s.If {
-			fmt.Fprintf(b, "%s}\n", indent)
+			// nested somewhere below the top level of the body (see nestStmt); the kind of nesting goes by the statement's number
+			b.WriteString(nestStmt(s.pos, fmt.Sprintf("L%d", s.pos), text, indent))
+		} else {
+			fmt.Fprintf(b, "%s%s\n", indent, text)
 		}
 	}
 }
@@ -999,5 +998,5 @@ var xprogStream = &Stream{
 	Name: "extended-programs", Quick: 1500, Thorough: 10000, New: func() Case { return &xprogCase{} },
 	Gen:      func(r *Rng, i int) Case { return genXProg(r) },
 	BatchRun: xprogBatch, ShrinkBudget: 40, MaxShrinks: 5,
-	Rule: "programs of 2–6 functions over the extended language of Model/Resolver2: 1–3 results of int/string/error (named in a third of the functions), parameters none / `e error` / `fn func() error` / `fn func() (int, error)` / `es ...error` / `e error, es ...error` (called with 0–2 listed arguments or with a slice spread into them), 0–3 local variables, 1–6 statements (some inside `if` blocks) among single, tuple, forwarding (`x, err = F()`) and `+=` assignments to locals, named results, captured variables, package variables and struct fields, full / forwarding / bare returns; expressions: literals, nil, opaque, identifiers (locals, named results, parameters, package variables of the same and of another file, selectors), calls with an error argument (itself an identifier, nil or a call) or a function literal argument with its own locals and statements, calls through a function-typed parameter, calls through a selector into functions of a sub-package (which call one another, use that package's variables and take literals too), functions declared without body, and a literal-only function now and then; printed to Go (two files), loaded with the real loader (100 per load), every top-level function of a program asked one after the other on the same loaded package in supervised children (the model answers each question from scratch); every statement carries its source-order number for the model; compared: FuncResults.String(); oracle as for the core programs",
+	Rule: "programs of 2–6 functions over the extended language of Model/Resolver2: 1–3 results of int/string/error (named in a third of the functions), parameters none / `e error` / `fn func() error` / `fn func() (int, error)` / `es ...error` / `e error, es ...error` (called with 0–2 listed arguments or with a slice spread into them), 0–3 local variables, 1–6 statements (some nested in an if, a for, a labelled for or switch, a bare block, a switch case, a range loop or a select) among single, tuple, forwarding (`x, err = F()`) and `+=` assignments to locals, named results, captured variables, package variables and struct fields, full / forwarding / bare returns; expressions: literals, nil, opaque, identifiers (locals, named results, parameters, package variables of the same and of another file, selectors), calls with an error argument (itself an identifier, nil or a call) or a function literal argument with its own locals and statements, calls through a function-typed parameter, calls through a selector into functions of a sub-package (which call one another, use that package's variables and take literals too), functions declared without body, and a literal-only function now and then; printed to Go (two files), loaded with the real loader (100 per load), every top-level function of a program asked one after the other on the same loaded package in supervised children (the model answers each question from scratch); every statement carries its source-order number for the model; compared: FuncResults.String(); oracle as for the core programs",
 }
